@@ -145,6 +145,25 @@ CHECKS = {
              "the effective table, and leave unnamed countries untouched.",
         note="Trusted: O-merge/O-reg; file names restricted so that every reasonable 'alpha-numeric' order coincides.",
         design="7/C18"),
+    "C14": dict(
+        technique="generated call sets x generated/enumerated thread schedules under a deterministic scheduler (sys.settrace baton), "
+                  "differential against the same call run alone",
+        text="Two or three library calls run in real threads whose interleaving the harness owns at source-line granularity "
+             "(opcode samples in thorough): all 'a steps / b steps' two-preemption schedules of method-level call pairs (stride "
+             "in quick), PRNG- and Hypothesis-drawn preemption lists for method-level and public-API calls. Every outcome must "
+             "equal the outcome of the call run alone; failing schedules must replay deterministically.",
+        note="Trusted: the scheduler (vlib/engines/sched.py); C code and third-party modules are atomic steps, so races inside them "
+             "are not explored.",
+        design="7/C14"),
+    "C15": dict(
+        technique="Hypothesis rule-based state machine over call histories, differential against a fresh-process (fork zygote) "
+                  "evaluation of every call, invariants over stored objects and registries",
+        text="Generated histories of validation, generation, seeded random generation, lookups, direct algorithm calls (including "
+             "failing ones) and operations on stored objects; each step's outcome must equal the outcome of the same call as the "
+             "first call in a fresh process; stored objects and the registries must never change.",
+        note="Trusted: the zygote (fork of an interpreter that imported the library and called nothing) as the meaning of 'fresh "
+             "process'; JSON normalisation of outcomes.",
+        design="7/C15"),
 }
 
 NOT_YET = "check not built yet in this round (planned in DESIGN.md section 7)"
